@@ -98,7 +98,14 @@ LEVEL_NOTE = (
     "queries, set_verified calls and further connect_cycles calls that follow it (so the property statement's 'after any "
     "sequence ... exactly when' is proved in the <= direction only for such states); after further add_one_way_edge / "
     "add_two_way_edge calls and before the next connect_cycles "
-    "the classes may be finer than the SCCs (that is the documented behaviour of equiv_db.py: `you should use the connect_cycle method first`)."
+    "the classes may be finer than the SCCs (that is the documented behaviour of equiv_db.py: `you should use the connect_cycle method first`). "
+    "What the classes ARE in such a stale state is now a theorem for EVERY reachable state (Equiv/Stale.v): after pre ++ Connect :: "
+    "post with no Connect in post, `equivalent` answers True exactly on the closure of 'mutually reachable along the edges recorded "
+    "by pre' under the two-way edges requested by post (C06_exact_partition, _total); before the first connect_cycles exactly on the "
+    "closure of the two-way edges (C06_exact_partition_before_connect); one-way edges, set_verified and queries change no class "
+    "(C06_step_exact). The right-hand sides do not mention the set-iteration order, so every Boolean `equivalent` returns - in stale "
+    "states too - is the same for any two iteration orders (C06_equivalent_order_independent): the comparison of Booleans on the "
+    "non-exact (sparse-label) half of the cases rests on a theorem, no longer on an empirical 0-mismatch."
 )
 
 SPARSE_POOL = [0, 1, 2, 3, 5, 8, 9, 16, 17, 24, 33, 64, 65, 100, 1000, 10**6, 2**40 + 3, -1, -2, -7]
